@@ -214,7 +214,8 @@ def load_module_from_file_object(
 
         # For reasons I don't understand, PyPy 3.2 stores a magic
         # of '0'...  The two values below are for Python 2.x and 3.x respectively
-        if magic[0:1] in ["0", b"0"]:
+        # (magic 48: both magic bytes count - 3376, a 3.6 beta, also starts with "0")
+        if magic[0:2] in ["0\x00", b"0\x00"]:
             magic = int2magic(3180 + 7)
 
         try:
